@@ -421,9 +421,18 @@ type splitMarshaler struct {
 	conts []gowarc.WarcRecord
 	mu    sync.Mutex
 	done  map[int]bool
+	// the largest size limit the writer passed along with a warcinfo record (0: never to be segmented)
+	warcinfoMax int64
 }
 
 func (m *splitMarshaler) Marshal(w io.Writer, record gowarc.WarcRecord, maxSize int64) (gowarc.WarcRecord, int64, error) {
+	if record.Type() == gowarc.Warcinfo && maxSize > 0 {
+		m.mu.Lock()
+		if maxSize > m.warcinfoMax {
+			m.warcinfoMax = maxSize
+		}
+		m.mu.Unlock()
+	}
 	_, n, err := m.inner.Marshal(w, record, maxSize)
 	if err != nil {
 		return nil, n, err
